@@ -570,3 +570,28 @@ def _cow_clone(e, c, a):
     if cow.var == 'Borrowed':
         return Enum('Borrowed', [cow.f[0].v], 'Cow')
     return Enum('Owned', [Str(list(cow.f[0].v.b))], 'Cow')
+
+
+# ---------------------------------------------------------------- unicode-segmentation (nondeterministic contract)
+@model(r'<str as UnicodeSegmentation>::graphemes|unicode_segmentation::UnicodeSegmentation::graphemes', 'unicode-segmentation graphemes (nondeterministic: any non-empty prefix on a char boundary)')
+def _graphemes(e, c, a):
+    r = as_strref_any(a[0])
+    bs = r.bytes()
+    offs = [0]
+    i = 0
+    while i < len(bs):
+        ch, w = decode_char(e, bs, i)
+        i += w; offs.append(i)
+
+    def nextfn(e_, it):
+        if it.k >= len(offs) - 1:
+            return none()
+        remaining = len(offs) - 1 - it.k
+        take = 1 + e_.branch([True] * remaining)        # every cluster length is possible
+        lo = offs[it.k]; hi = offs[it.k + take]
+        it.k += take
+        log = getattr(e_, 'grapheme_choices', None)
+        if log is not None:
+            log.append(take)
+        return some(StrRef(r.s, r.lo + lo, r.lo + hi))
+    return Iter('custom', nextfn=nextfn, k=0)
